@@ -135,11 +135,29 @@ class Parser(object):
                 line, pos
             )
             fieldnames.add(name)
+            self._parser_check(
+                not (member.optional and member.kind != model.Kind.FIXED),
+                "optional field '{}' of dynamic type".format(name),
+                line, pos
+            )
+            self._parser_check(
+                not (member.size and member.kind != model.Kind.FIXED),
+                "fixed or limited array '{}' of dynamic type".format(name),
+                line, pos
+            )
+            self._parser_check(
+                not (member.is_array and member.kind == model.Kind.UNLIMITED),
+                "array '{}' of unlimited type".format(name),
+                line, pos
+            )
             if member.bound:
                 bound, _, __ = next(six.ifilter(lambda m: m[0].name == member.bound, members[:i]), (None, None, None))
                 if bound:
                     self._parser_check(self._is_type_sizer_compatible(bound.type_name),
                                        "Sizer of '{}' has to be of (unsigned) integer type".format(name),
+                                       line, pos)
+                    self._parser_check(not bound.optional,
+                                       "Sizer of '{}' must not be optional".format(name),
                                        line, pos)
                 else:
                     self._parser_error("Sizer of '{}' has to be defined before the array".format(name),
